@@ -98,7 +98,7 @@ def render (cont : List Char) : List (List Char) → List (List Char)
 inductive Item where
   | delta (d : Int)
   | str (s : List Char)
-  deriving Repr
+  deriving Repr, DecidableEq
 
 /-- What `write_lines` does with one `subline` (no embedded newline).
     Output: lines written *with* marker rendering already applied, and the new
